@@ -22,7 +22,7 @@ struct PropSpec {
 const PROPS: &[PropSpec] = &[
     PropSpec { id: "C01", engine: "dsim", profile: "crash", level: "fault_enumeration", quick_runs: 240, thorough_runs: 4000, also: &[] },
     PropSpec { id: "C02", engine: "dsim", profile: "crash", level: "fault_enumeration", quick_runs: 240, thorough_runs: 4000, also: &[] },
-    PropSpec { id: "C04", engine: "dsim", profile: "life", level: "exploration", quick_runs: 1500, thorough_runs: 30000, also: &[] },
+    PropSpec { id: "C04", engine: "dsim", profile: "life", level: "exploration", quick_runs: 1500, thorough_runs: 30000, also: &["C05", "C09", "C10", "C21"] },
     PropSpec { id: "C05", engine: "dsim", profile: "dml", level: "exploration", quick_runs: 2000, thorough_runs: 40000, also: &["C06", "C09", "C10", "C11", "C12"] },
     PropSpec { id: "C06", engine: "dsim", profile: "fail", level: "exploration", quick_runs: 2000, thorough_runs: 40000, also: &[] },
     PropSpec { id: "C07", engine: "dsim", profile: "txn", level: "exploration", quick_runs: 2000, thorough_runs: 40000, also: &[] },
